@@ -61,6 +61,10 @@ DESC["C16"] = dict(technique=CASES + " (spec/Codec.tla with explicit nondetermin
    text="Decode is total over a junk universe; ~20k enumerated junk trees x 2 call forms x {zero, initialised} receivers are fed to the real Marshal under recover: it must return, report an error or leave an initialised receiver on which String / Unmarshal / IsEqual return normally; for well-formed input (labels in any case, unknown label => BASIC holding all entries, initialised receiver gains one element) the outcome is compared exactly. Random junk is validated by Check_Codec.tla.",
    note="For malformed CONDITION rows and undecodable nested slices the specification is deliberately nondeterministic (error or any initialised stack).")
 
+DESC["C05"] = dict(technique=CASES + " (spec/Equal.tla: Canon / Mutants / Neutral)", design_ref="DESIGN.md section 4 C05",
+   text="Eq(a,b) is equality of canonical descriptions; TLC proves on every enumerated tree that every single point mutation breaks Eq and every neutral variation keeps it, then emits (tree, copy), (tree, mutant) and (tree, neutral variant) pairs; both sides are built by two independent calls of the concretiser and IsEqual must answer nil / error accordingly in BOTH directions without panicking. ~4.8k pairs (quick) over 20 leaf classes in three positions; random pairs validated by Check_Equal.tla.",
+   note="Exhaustive only within the stated leaf classes and positions; error text is never compared; functions / channels / unsafe pointers are covered by C08's awkward-value sweep (no panic), not by equality semantics.")
+
 def main():
     commits = subprocess.run(["git", "-C", "/repo", "log", "--format=%h %s", "--grep=^verif:"],
                              stdout=subprocess.PIPE, text=True).stdout.strip().splitlines()
